@@ -6,7 +6,6 @@ their multiplicity) times ``10**exponent``.  Only ``t.data``, ``t.inds`` and ``t
 objects, and only to evaluate a *result* network.
 """
 
-import itertools
 from collections import Counter
 
 import numpy as np
@@ -430,7 +429,7 @@ def full_routes(cx):
         e = exps[ei]
         sp = gen_spec(rng, nt, hy, dt, e, self_trace=(r % 3 == 2))
         base = dict(i=i, nt=nt, dt=dt, e=e, has_exponent=bool(e != 0.0), hyper=sp.hyper, self_trace=sp.self_trace)
-        for oi, out in enumerate(_out_choices(rng, sp, hy)):
+        for out in _out_choices(rng, sp, hy):
             pb = dict(base, out=None if out is None else list(out), explicit_out_needed=sp.needs_explicit(out))
             okw = {} if out is None else {"output_inds": out}
             # ---- contract(all | ...) ------------------------------------------------------------------
@@ -668,7 +667,7 @@ def partial(cx):
         base = dict(i=i, nt=nt, dt=dt, e=e, has_exponent=bool(e != 0.0), hyper=sp.hyper, self_trace=sp.self_trace,
                     out=list(gout))
         # ---- tag selections ------------------------------------------------------------------------------
-        for si, (tags, which) in enumerate(_selections(rng, sp)):
+        for tags, which in _selections(rng, sp):
             sel = sp.select(tags, which)
             if not sel or len(sel) == nt:
                 continue
